@@ -440,6 +440,14 @@ pub fn gen_ws(ch: &mut Chooser, cx: &mut CaseCtx, o: &WsGenOpts) -> WsCase {
                         failing = (0..fp.hunks.len()).collect();
                         fail_reason = Some("missing-file".into());
                         any_failed = true;
+                    } else if want_fail && !reverse && fp.hunks.len() >= 2 && rej_dir_ok(&path) && ch.chance(1, 5) {
+                        // misordered hunks: swap two neighbours; the later one (now first) applies, the
+                        // other one then lies before lines that are already frozen
+                        let i = ch.below(fp.hunks.len() - 1);
+                        fp.hunks.swap(i, i + 1);
+                        failing = vec![i + 1];
+                        fail_reason = Some("misordered".into());
+                        any_failed = true;
                     } else if want_fail && !fp.hunks.is_empty() && rej_dir_ok(&path) {
                         let tag = if reverse { b'+' } else { b'-' };
                         let breakable: Vec<usize> = fp.hunks.iter().enumerate().filter(|(_, h)| h.lines.iter().any(|l| l.tag == tag)).map(|(i, _)| i).collect();
